@@ -218,7 +218,7 @@ func RunReplay(harnesses map[string]func()) bool {
 		fmt.Println("REPLAY-ERROR", err)
 		return false
 	}
-	perCase := 60 * time.Second
+	perCase := 300 * time.Second
 	if s := os.Getenv("VERIF_REPLAY_TIMEOUT"); s != "" {
 		if d, err := time.ParseDuration(s); err == nil {
 			perCase = d
